@@ -23,6 +23,7 @@ meta = {
         "demo_exit_with_change": ver["demo_exit_with_change"],
         "demo_exit_without_change": ver["demo_exit_without_change"],
         "demo_cmd": cmd[:1],
+        "note": ver.get("note", ""),
     },
     "detection": {"caught_by": caught, "initially": initially,
                   "how_run": "git -C /repo apply seeded/%s/patch.diff; ./check %s; git -C /repo checkout -- ." % (name, prop)},
